@@ -16,6 +16,10 @@ struct Params {
 impl Params {
     const LIMIT: usize = 2;
 }
+impl Path {
+    /// max number of path params a single route can capture
+    pub(crate) const PARAMS_LIMIT: usize = Params::LIMIT;
+}
 
 const _: () = {
     impl Params {
